@@ -87,16 +87,18 @@ def contradicts(a, pi):
     return False
 
 
-def tallies_z3(a, idxs, cands):
-    """oracle tallies (winner, loser) of assertion a over the symbolic ballots, as z3 Ints"""
+def tallies_z3(a, idxs, cands, wts=None):
+    """oracle tallies (winner, loser) of assertion a over the symbolic ballots (with multiplicities), as z3 Ints"""
     kind, w, l, E = a
+    wts = wts or [z3.IntVal(1)] * len(idxs)
     if kind == "NEB":
-        tw = z3.Sum([z3.If(ix[w] == 0, 1, 0) for ix in idxs])
-        tl = z3.Sum([z3.If(z3.And(ix[l] >= 0, z3.Or(ix[w] < 0, ix[l] < ix[w])), 1, 0) for ix in idxs])
+        tw = z3.Sum([z3.If(ix[w] == 0, n, 0) for ix, n in zip(idxs, wts)])
+        tl = z3.Sum([z3.If(z3.And(ix[l] >= 0, z3.Or(ix[w] < 0, ix[l] < ix[w])), n, 0) for ix, n in zip(idxs, wts)])
         return tw, tl
 
     def first(x):
-        return z3.Sum([z3.If(z3.And(ix[x] >= 0, *[z3.Or(ix[y] < 0, ix[y] > ix[x]) for y in cands if y != x and y not in E]), 1, 0) for ix in idxs])
+        return z3.Sum([z3.If(z3.And(ix[x] >= 0, *[z3.Or(ix[y] < 0, ix[y] > ix[x]) for y in cands if y != x and y not in E]), n, 0)
+                       for ix, n in zip(idxs, wts)])
     return first(w), first(l)
 
 
@@ -323,6 +325,18 @@ def run_cell(cell, want):
                 bid[id(cvrs_[f"b{b}"])] = ("cvr", pno, b)
                 bid[id(cvrs_[f"b{b}"]["c"])] = ("ballot", pno, b)
             profiles.append((idxs_, cvrs_))
+        # optional multiplicities: ballot b stands for wts[b] identical ballots (the search only ever sums leaf predicates over the CVRs)
+        M = cell.get("mult", 1)
+        wts = [z3.Int(f"count{b}") for b in range(B)] if M > 1 else [z3.IntVal(1)] * B
+        for wv in (wts if M > 1 else []):
+            ex.assume(z3.And(wv >= 1, wv <= M))
+        wt_of = {}
+        for (idxs_, cvrs_) in profiles:
+            if idxs_ is None:
+                continue
+            for b in range(B):
+                wt_of[id(cvrs_[f"b{b}"])] = wts[b]
+                wt_of[id(cvrs_[f"b{b}"]["c"])] = wts[b]
         base0 = list(ex.pc)          # only the preconditions on the ballots have been assumed so far
 
         def memo(fn, name):
@@ -330,7 +344,12 @@ def run_cell(cell, want):
                 key = (name,) + tuple(bid.get(id(x), id(x)) if isinstance(x, dict) else (tuple(x) if isinstance(x, list) else x) for x in a)
                 if key not in gcache:
                     gcache[key] = merge.merged_call(fn, *a, _base=base0)
-                return gcache[key]
+                v = gcache[key]
+                if M > 1:
+                    for x in a:
+                        if isinstance(x, dict) and id(x) in wt_of:
+                            return SV(wt_of[id(x)]) * v
+                return v
             return w
         # merge the forks inside the leaf predicates (harness-side wrapping of the real functions; restored afterwards)
         orig = (RU.vote_for_cand, RU.NEBAssertion.is_vote_for_winner, RU.NEBAssertion.is_vote_for_loser)
@@ -342,10 +361,13 @@ def run_cell(cell, want):
         RU.NEBAssertion.is_vote_for_winner = lambda self, cvr: nw(self.winner, self.loser, cvr)
         RU.NEBAssertion.is_vote_for_loser = lambda self, cvr: nl(self.winner, self.loser, cvr)
 
+        total_sv = SV(z3.Sum(wts)) if M > 1 else B
+
         def asn_func(tw, tl, other, total):
             # tallies are concretised by forks (a handful of feasible values each); the shipped difficulty function then runs concretely
             tw = concretize_int(tw) if isinstance(tw, SV) else tw
             tl = concretize_int(tl) if isinstance(tl, SV) else tl
+            total = concretize_int(total) if isinstance(total, SV) else total
             return real_fn(tw, tl, total - tw - tl, total)
 
         def rank_of(m, ixs):
@@ -353,10 +375,12 @@ def run_cell(cell, want):
 
         def inputs(m):
             d = dict(ballots=rank_of(m, profiles[-1][0]))
+            if M > 1:
+                d["counts"] = [model_value(m, wv) for wv in wts]
             if cell.get("repeat"):
                 d["previous_call_ballots"] = cell["repeat"]
             return d
-        con = RU.Contest("c", list(cands), winner, B, order=list(cell["hint"]) if cell["hint"] else [])
+        con = RU.Contest("c", list(cands), winner, total_sv, order=list(cell["hint"]) if cell["hint"] else [])
         try:
             for idxs, cvrs in profiles:
                 res = R_.compute_raire_assertions(con, cvrs, winner, asn_func, False, agap=0)
@@ -372,7 +396,7 @@ def run_cell(cell, want):
         finally:
             RU.vote_for_cand, RU.NEBAssertion.is_vote_for_winner, RU.NEBAssertion.is_vote_for_loser = orig
         st['reach'] += 1
-        tz = {a: tallies_z3(a, idxs, cands) for a in U}
+        tz = {a: tallies_z3(a, idxs, cands, wts) for a in U}
         true_ = {a: tz[a][0] > tz[a][1] for a in U}
         claims = []
         if res:
@@ -389,8 +413,8 @@ def run_cell(cell, want):
                     claims.append((f"{k}: winner tally strictly larger", vwz > vlz))
                     # re-application through the assertion's own predicates (C14, third clause)
                     try:
-                        rw = sum(a.is_vote_for_winner(c) for c in cvrs.values())
-                        rl = sum(a.is_vote_for_loser(c) for c in cvrs.values())
+                        rw = sum((SV(wts[b]) * a.is_vote_for_winner(cvrs[f"b{b}"])) if M > 1 else a.is_vote_for_winner(cvrs[f"b{b}"]) for b in range(B))
+                        rl = sum((SV(wts[b]) * a.is_vote_for_loser(cvrs[f"b{b}"])) if M > 1 else a.is_vote_for_loser(cvrs[f"b{b}"]) for b in range(B))
                         rwz = rw.e if isinstance(rw, SV) else z3.IntVal(int(rw))
                         rlz = rl.e if isinstance(rl, SV) else z3.IntVal(int(rl))
                         claims.append((f"{k}: re-applied to the CVRs the assertion reproduces its reported tallies", z3.And(rwz == vwz, rlz == vlz)))
@@ -407,10 +431,11 @@ def run_cell(cell, want):
                 D = max(float(d) for d in diffs)
                 # table of (winner tally, loser tally) pairs whose difficulty is strictly below D (the shipped function as a black box)
                 easier = {}
-                for tw in range(B + 1):
-                    for tl in range(B + 1 - tw):
+                Tot = B if M == 1 else concretize_int(total_sv)
+                for tw in range(Tot + 1):
+                    for tl in range(Tot + 1 - tw):
                         if tw > tl:
-                            easier[(tw, tl)] = float(real_fn(tw, tl, B - tw - tl, B)) < D - 1e-12
+                            easier[(tw, tl)] = float(real_fn(tw, tl, Tot - tw - tl, Tot)) < D - 1e-12
                 def usable(a):
                     tw, tl = tz[a]
                     return z3.Or(*[z3.And(tw == x, tl == y) for (x, y), ok in easier.items() if ok]) if any(easier.values()) else z3.BoolVal(False)
@@ -467,6 +492,9 @@ def replay(f, want):
     cands = ["A", "B", "C", "D"][:NC]
     fn = getattr(SE, cell["fn"])
     ballots = inp["ballots"]
+    if inp.get("counts"):
+        ballots = [rk for rk, n in zip(ballots, inp["counts"]) for _ in range(int(n))]
+    B = len(ballots)
     cvrs = {f"b{b}": {"c": {c: i for i, c in enumerate(rk)}} for b, rk in enumerate(ballots)}
     U = universe(cands)
     orders = [pi for pi in itertools.permutations(cands) if pi[-1] != winner]
